@@ -56,6 +56,8 @@ def subdivide_segments(v, num_subdivisions=5):
     by the length of the segment and the supplied partition size.
 
     """
+    vg.shape.check(locals(), "v", (-1, -1))
+
     src = np.arange(len(v) - 1)
     dst = src + 1
 
